@@ -683,9 +683,10 @@ func (u *Unmarshaler) processFieldWithEnvValue(fieldType reflect.Type, value ref
 		return err
 	}
 
+	maybeNewValue(fieldType, value)
 	fieldKind := fieldType.Kind()
-	switch fieldKind {
-	case reflect.Bool:
+	switch {
+	case fieldKind == reflect.Bool:
 		val, err := strconv.ParseBool(envVal)
 		if err != nil {
 			return fmt.Errorf("用环境变量解组字段 %q 出错，%w", fullName, err)
@@ -693,13 +694,13 @@ func (u *Unmarshaler) processFieldWithEnvValue(fieldType reflect.Type, value ref
 
 		value.SetBool(val)
 		return nil
-	case durationType.Kind():
+	case fieldType == durationType:
 		if err := fillDurationValue(fieldKind, value, envVal); err != nil {
 			return fmt.Errorf("用环境变量解组字段 %q 出错，%w", fullName, err)
 		}
 
 		return nil
-	case reflect.String:
+	case fieldKind == reflect.String:
 		value.SetString(envVal)
 		return nil
 	default:
